@@ -51,7 +51,7 @@ POOL = [
     ["n"], ["b", True], ["b", False],
     I(0), I(1), I(-1), I(2), I(2 ** 53), I(2 ** 53 + 1), I(2 ** 63 - 1), I(-2 ** 63),
     F(0.0), F(-0.0), F(0.5), F(1.0), F(-1.0), F(2.0), F(2.0 ** 53), F(float("inf")), F(float("-inf")), F(float("nan")), F(9.223372036854775807e18),
-    St(""), St(" "), St("1"), St("1.0"), St("true"), St("a"), St("A"), St("ab"), St("b"), St("é"),
+    St(""), St(" "), St("\t\n"), St("\u00a0\u2003"), St("\u200b"), St("1"), St("1.0"), St("true"), St("a"), St("A"), St("ab"), St("b"), St("é"),
     ["d", "2020-01-02", 2020, 1, 2], ["d", "2020-01-03", 2020, 1, 3],
     DT("2020-01-02 03:04:05 +0000", 2020, 1, 2, 3, 4, 5, 0, 0),
     DT("2020-01-02 04:04:05 +0100", 2020, 1, 2, 4, 4, 5, 0, 3600),
